@@ -27,7 +27,9 @@ def check(ctx, rep):
     # the adapter's own flush cannot fail after the BufWriter was drained (a failure there would leave `written` standing
     # although the buffer is empty: the next metric that fits would be flushed out alone)
     from .common import KeepOnly
-    S.rule_A1(ctx, KeepOnly(rep, ('/flush-is-noop',), 'A1f'), 'A1f')
+    # ... and hands the socket everything it is given in one send: an adapter that takes only part of a drained buffer makes
+    # the BufWriter come back with the rest - one drain becomes several datagrams, more than in-order packing needs
+    S.rule_A1(ctx, KeepOnly(rep, ('/flush-is-noop', '/sends-whole-buffer'), 'A1f'), 'A1f')
     # the sink's own emit is lock + one writer call: no flush or second write of its own
     S.rule_lock_discipline(ctx, rep, 'G2', methods=('emit',))
     S.rule_writer_only_in_emit_flush(ctx, rep, 'G3')
